@@ -203,13 +203,14 @@ func GetStreamWriter(path string, isappend bool) (*DataStreamWriter, error) {
 		}
 	} else {
 		logger.Infof("create data file: %s", path)
+		verifPoint("fs.create", path)
 		fd, err = os.Create(path)
 		if err != nil {
 			logger.Fatalf(err.Error())
 			return nil, err
 		}
 	}
-	wbuf := bufio.NewWriterSize(fd, Conf.BufIOCap)
+	wbuf := bufio.NewWriterSize(verifWrapWriter(fd, path), Conf.BufIOCap)
 	w := &DataStreamWriter{path: path, fd: fd, wbuf: wbuf, offset: offset}
 	return w, nil
 }
